@@ -256,6 +256,33 @@ def run(ctx, res):
                                       ctor={"normalize_names": norm}, expected=exp, actual=py_of_impl(r["ok"]) if "ok" in r else r, oracle="to_denote")
                     else:
                         res.nontrivial.add(t + str(norm) + mode)
+    # ---- CREATE SCHEMA [IF NOT EXISTS] n [AUTHORIZATION u] [COMMENT [=] 'c']: expected = the extracted Coq denote ------------------------
+    if ctx.model:
+        sxs = []
+        for i in range(300 if ctx.thorough else 80):
+            ine = rng.random() < 0.4
+            auth = (not ine) and rng.random() < 0.5
+            com = rng.choice([None, None, (False, "'note'"), (True, "'a b'"), (True, "'x;y'"), (False, "'it''s'")])
+            sxs.append([kwc(rng, "CREATE"), kwc(rng, "SCHEMA")] + ([kwc(rng, "IF"), kwc(rng, "NOT"), kwc(rng, "EXISTS")] if ine else ["", "", ""]) +
+                       [rng.choice(["sales", "Dev", "[Dev]", "`bt`", "x_9", "s1"]), (rng.choice(["joe", "Admin", "[dbo]"]) if auth else ""),
+                        (kwc(rng, "COMMENT") if com else ""), ("=" if com and com[0] else ""), (com[1] if com else "")])
+        for norm in (False, True):
+            sp = ctx.model.map([("sx_spec", ["1" if norm else "0"] + a) for a in sxs])
+            texts = [(" ".join(tx for _, tx in s_["lexemes"]) + ";") if "lexemes" in s_ else None for s_ in sp]
+            for mode in ("sql", "bigquery", "hql"):
+                R6 = ctx.impl.map([{"op": "run", "ddl": t or "", "ctor": {"normalize_names": norm}, "run": {"output_mode": mode}} for t in texts])
+                res.evaluations += len(sxs)
+                for a, s_, t, r in zip(sxs, sp, texts, R6):
+                    if not s_.get("wf"):
+                        res.count("sx_form:not_wf")
+                        continue
+                    res.count("sx_form:wf")
+                    got = canon_impl(r["ok"]) if "ok" in r else ("raise", r.get("raise"))
+                    if got != ("list", (canon_model(s_["denote"]),)):
+                        res.violation("input", "schema entity differs from the Coq specification (denote) in mode %s" % mode, ddl=t,
+                                      ctor={"normalize_names": norm}, expected=s_["denote"], actual=py_of_impl(r["ok"]) if "ok" in r else r, oracle="sx_denote")
+                    else:
+                        res.nontrivial.add(t + str(norm) + mode)
     res.samples.append({"ddl": cases[0][1], "expected": cases[0][2]})
     res.samples.append({"ddl": cases[6][1], "expected": cases[6][2]})
 
